@@ -323,14 +323,27 @@ def check_clauses(ctx, rng, n, vi, led, conn, entries, options, txns, d, e, use_
         return False
     # 6. CLOSE before OPEN is rejected at compile time
     if use_open:
-        bad = f'SELECT account FROM OPEN ON {d} CLOSE ON {d - datetime.timedelta(days=rng.choice([1, 30]))}'
+        # in every statement kind, with and without a filter expression, with and without CLEAR; equal dates are accepted
+        early = d - datetime.timedelta(days=rng.choice([1, 30]))
+        fexpr = rng.choice(['', '', 'year >= 2019 ', 'flag = "*" ', 'NOT "x" IN tags ', 'has_account("Assets") '])
+        tail = rng.choice(['', ' CLEAR'])
+        stmt = rng.choice(['SELECT account FROM {}', 'SELECT account, sum(position) AS s FROM {} GROUP BY account', 'BALANCES FROM {}', 'JOURNAL "Assets" FROM {}', 'PRINT FROM {}',
+                           'SELECT account WHERE account IN (SELECT account FROM {})'])
+        bad = stmt.format(f'{fexpr}OPEN ON {d} CLOSE ON {early}{tail}')
+        ctx.count('obs.close_before_open_with_filter' if fexpr else 'obs.close_before_open_without_filter')
         try:
-            conn.execute(bad)
-            ctx.violation('c13.close_before_open_accepted', f'{bad} is accepted', case)
+            compiler.compile(conn, conn.parse(bad))
+            ctx.violation('c13.close_before_open_accepted', f'{bad} is accepted', dict(case, statement=bad))
         except engine.bq().CompilationError:
             ctx.count('obs.close_before_open_rejected')
         except Exception as exc:  # noqa: BLE001
-            ctx.violation('c13.close_before_open_wrong_exception', f'{bad}: {exc!r}', case)
+            ctx.violation('c13.close_before_open_wrong_exception', f'{bad}: {exc!r}', dict(case, statement=bad))
+        same = stmt.format(f'{fexpr}OPEN ON {d} CLOSE ON {d}{tail}')
+        try:
+            compiler.compile(conn, conn.parse(same))
+            ctx.count('obs.close_on_open_date_accepted')
+        except Exception as exc:  # noqa: BLE001
+            ctx.violation('c13.close_on_open_date_rejected', f'{same}: {exc!r}', dict(case, statement=same))
     # 7. the connection is unchanged
     after = digest_entries(entries)
     plain_after = conn.execute('SELECT id, account, position FROM #postings').fetchall()
@@ -479,7 +492,7 @@ def finalize(merged):
         reasons.append(f'only {len(subsets)} of the clause subsets observed: {sorted(subsets)}')
     for k in ('obs.original_transactions_cut', 'obs.original_transactions_kept', 'obs.balance_sheet_accounts_compared',
               'obs.income_statement_accounts_compared', 'obs.filter_relations', 'obs.print_route', 'obs.balances_route', 'obs.journal_route',
-              'obs.close_before_open_rejected', 'obs.digest_comparisons', 'obs.statements_on_shared_connection', 'obs.subselect_clause_relations',
+              'obs.close_before_open_rejected', 'obs.close_before_open_with_filter', 'obs.close_before_open_without_filter', 'obs.digest_comparisons', 'obs.statements_on_shared_connection', 'obs.subselect_clause_relations',
               'obs.named_query_sessions', 'obs.reference_view_comparisons', 'obs.print_with_filter_and_period', 'obs.named_query_lines.run', 'obs.named_query_lines.typed', 'obs.named_query_default_close_applied'):
         if c.get(k, 0) == 0:
             reasons.append(f'{k} == 0')
